@@ -20,7 +20,7 @@ static void schema_case(size_t i, const char* tag, const std::string& e, const s
   std::string prob, w = vh::Walk(d, prob);
   if (!prob.empty()) vh::fail(i, (std::string(tag) + ":accessor").c_str(), prob);
   std::string c = vh::CompareTokens(exp, w, nullptr);
-  if (!c.empty()) { vh::fail(i, (std::string(tag) + ":merge").c_str(), c + " got=" + w.substr(0, 200)); return; }
+  if (!c.empty()) { vh::fail(i, (std::string(tag) + ":merge").c_str(), c + " got=" + w.substr(0, 6000)); return; }
   // the result serialises and parses back to itself (the document is not corrupted)
   std::string dump = d.Dump();
   Document back;
@@ -32,7 +32,7 @@ static void schema_case(size_t i, const char* tag, const std::string& e, const s
   if (d.HasParseError()) { vh::fail(i, (std::string(tag) + ":parse-error").c_str(), "second ParseSchema reports an error"); return; }
   std::string p3, w2 = vh::Walk(d, p3);
   c = vh::CompareTokens(exp2, w2, nullptr);
-  if (!c.empty()) vh::fail(i, (std::string(tag) + ":merge2").c_str(), "after a second application: " + c + " got=" + w2.substr(0, 200));
+  if (!c.empty()) vh::fail(i, (std::string(tag) + ":merge2").c_str(), "after a second application: " + c + " got=" + w2.substr(0, 6000));
 }
 
 int main(int argc, char** argv) {
